@@ -22,8 +22,8 @@ from vf.core import Check, HarnessError
 from coba.safety import SafeLearner
 from coba.primitives import is_batch
 from coba.environments.filters import Batch
-from coba.evaluators import SequentialCB
-from coba.primitives import SimulatedInteraction
+from coba.evaluators import SequentialCB, SequentialIGL
+from coba.primitives import SimulatedInteraction, GroundedInteraction
 from coba.context import CobaContext, NullLogger, MemoryCacher
 
 import coba.random as _coba_random
@@ -98,7 +98,14 @@ def mk_kw(kwid, e):
     if kwid == 0: return None
     if kwid == 1: return {}
     if kwid == 2: return {'i': e}                 # 0 (falsy) for the first script entry
-    return {'v': [e, 2], 'w': 's%d' % e}
+    if kwid == 3: return {'v': [e, 2], 'w': 's%d' % e}
+    # payloads whose keys are INSERTED in an order that depends on the script entry (= on the row): equal key sets, legal
+    if kwid in (4, 5):                            # two keys: (ab, ba, ab, ..) and (ba, ab, ba, ..)
+        items = [('arm', e), ('mode', 'm%d' % e)]
+        return dict(items if (e + kwid) % 2 == 0 else items[::-1])
+    items = [('arm', e), ('mode', 'm%d' % e), ('tag', [e])]
+    perms = [(0, 1, 2), (2, 0, 1), (1, 2, 0)] if kwid == 6 else [(0, 1, 2), (0, 2, 1), (1, 0, 2), (2, 1, 0)]
+    return dict(items[i] for i in perms[e % len(perms)])
 
 
 FMTS = ['A', 'AP', 'PM', 'hA', 'hAP', 'hPM']
@@ -513,7 +520,7 @@ def key_of(cfg, f):
     c = cfg['calls'][f.call]
     feats = ['format %s' % FMT_TEXT[cfg['fmt']], MODE_TEXT[cfg['mode']]]
     if cfg['mode'] != 'not': feats.append('%d row%s' % (c['n'], '' if c['n'] == 1 else 's'))
-    feats.append({0: 'no kwargs', 1: 'empty kwargs', 2: 'kwargs', 3: 'kwargs with list values'}[cfg['kw']])
+    feats.append(KW_TEXT[cfg['kw']])
     feats.append('actions: %s' % ACT_KIND[c['acts']])
     if f.call >= 1:
         before = [ACT_KIND[c0['acts']] + ('' if cfg['mode'] == 'not' else ' (%d rows)' % c0['n']) for c0 in cfg['calls'][:f.call]]
@@ -524,6 +531,8 @@ def key_of(cfg, f):
     return '%s|%s|%s' % (f.comp, f.mode, ', '.join(feats))
 
 
+KW_TEXT = {0: 'no kwargs', 1: 'empty kwargs', 2: 'kwargs', 3: 'kwargs with list values', 4: 'two kwargs whose key order differs between rows',
+           5: 'two kwargs whose key order differs between rows (first row reversed)', 6: 'three kwargs in rotated key order per row', 7: 'three kwargs in permuted key order per row'}
 FMT_TEXT = {'A': 'action', 'AP': '(action, prob)', 'PM': 'PMF', 'hA': "{'action':..}", 'hAP': "{'action_prob':..}", 'hPM': "{'pmf':..}"}
 
 
@@ -712,13 +721,49 @@ def minimise_eval(cfg, ch, f):
     feats = []
     if cfg['fmt'] != 'A': feats.append('format %s' % FMT_TEXT[cfg['fmt']])
     if cfg['mode'] != 'not': feats.append(MODE_TEXT[cfg['mode']] + ' (batches of 2 and 1)')
-    if cfg['kw']: feats.append({1: 'empty kwargs', 2: 'kwargs', 3: 'kwargs with list values'}[cfg['kw']])
+    if cfg['kw']: feats.append(KW_TEXT[cfg['kw']])
     if cfg['calls'][0]['acts'] != 's': feats.append('actions: %s' % ACT_KIND[cfg['calls'][0]['acts']])
     if cfg['seed'] != 1: feats.append('evaluator seed %r' % (cfg['seed'],))
     if cfg.get('le'): feats.append('logged environment, learn=%r eval=%r' % tuple(cfg['le']))
     key = 'SequentialCB|%s|%s' % (f.mode, ', '.join(feats) or 'any format')
     _EMIN_CACHE[ck] = (key, cfg, ch, f)
     return _EMIN_CACHE[ck]
+
+
+class UniformPmfLearner:
+    """Answers every predict with the uniform PMF over two actions in the given format (un-batched)."""
+    def __init__(self, fmt, kwid): self.fmt, self.kwid, self.learned = fmt, kwid, []
+    def predict(self, context, actions):
+        v = [0.5, 0.5] if self.fmt == 'PM' else {'pmf': [0.5, 0.5]}
+        return v if self.kwid == 0 else (v, mk_kw(self.kwid, 1))
+    def learn(self, context, action, reward, probability, **kwargs):
+        self.learned.append((action, probability, kwargs))
+
+
+class ListEnv:
+    def __init__(self, its): self.its = its
+    @property
+    def params(self): return {}
+    def read(self): return self.its
+
+
+SEED_N = 12
+
+
+def seeded_actions(which, fmt, kwid, seed, exp_seed=None):
+    """The actions played over SEED_N interactions with a uniform PMF under `which` evaluator(seed=seed)."""
+    CobaContext.store = {} if exp_seed is None else {'experiment_seed': exp_seed}
+    try:
+        lrn = UniformPmfLearner(fmt, kwid)
+        if which == 'SequentialIGL':
+            env = ListEnv([GroundedInteraction(i, ['a', 'b'], [1, 0], [3, 4], userid=i % 2, isnormal=True) for i in range(SEED_N)])
+            out = list(SequentialIGL(record=['reward', 'feedback', 'action'], seed=seed).evaluate(env, lrn))
+        else:
+            env = ListEnv([SimulatedInteraction(i, ['a', 'b'], [1, 0]) for i in range(SEED_N)])
+            out = list(SequentialCB(record=['reward', 'action', 'probability'], seed=seed).evaluate(env, lrn))
+        return [o.get('action') for o in out], [(a, p) for a, p, _ in lrn.learned], [kw for _, _, kw in lrn.learned]
+    finally:
+        CobaContext.store = {}
 
 
 def run_agg_pmf(seeds):
@@ -746,7 +791,7 @@ class C15(Check):
     LEVEL = 'exploration'
     ENGINE = 'ENUM'
     RULE = ('cases = (format in {action, (action,prob), PMF, {action:}, {action_prob:}, {pmf:}}) x (kwargs: none, {}, scalar payload, '
-            'list+string payload) x (layout: un-batched, row-major batch, column-major batch, learner that refuses batches) x batch size '
+            'list+string payload, and for batches 2- and 3-key payloads whose key insertion order differs between the rows) x (layout: un-batched, row-major batch, column-major batch, learner that refuses batches) x batch size '
             '1..2 (thorough 1..3, incl. size == number of actions) x 13 action sets (strings, one int, ints, 0/1, 0..2, floats 0.0/1.0, probability-like '
             'floats, one-hot tuples of 2 and 3, lists, sparse dicts with 1 and 2 features, 1-feature dense) x context kind {None, '
             'scalar, list} x SafeLearner seed (PMF formats) x container types; plus two-call histories where the second call offers '
@@ -766,6 +811,7 @@ class C15(Check):
         'learn is driven directly with predict\'s result and a reward, as SequentialCB does; in addition a slice (5 scalar action sets, 3 interactions, un-batched and batches of 2+1) runs through the real SequentialCB(record reward/action/probability), where the recorded action / probability / reward and the arguments of learn are compared; a failure there is reported only if SafeLearner driven directly reads the same answers correctly (otherwise the direct case reports it); with learn=\'ips\' (own prediction learned with an estimated reward) action, probability and kwargs of that predict call must arrive in learn, the reward value is left to C06; with learn=\'off\' (logged action learned) only the context is compared; eval=\'ips\' rewards are not compared; dr/dm need vowpalwabbit and are outside',
         'a column-major un-hinted PMF history whose FIRST batch is 1 row x 1 action ([[1]]: identical in row- and column-major reading, also under a one-row probe) is demanded for that first call only',
         'reproducibility: coba.random sees a virtual clock whose every reading differs; two executions with the same seed must draw the same actions, and through SequentialCB the draws under an evaluator seed must not depend on CobaContext.store["experiment_seed"]; that the evaluator and a directly built SafeLearner with the same seed draw the same is NOT demanded',
+        'evaluator seeds: for SequentialCB and SequentialIGL (un-batched, uniform PMF, 12 interactions, seeds 0,1,7,8) the played actions must be reproducible, independent of experiment_seed, not identical for all seeds, and SequentialIGL(seed) must play what SequentialCB(seed) plays (it is defined as a wrapper of it); RejectionCB draws from a PMF only for ope=dr/dm (vowpalwabbit) and is outside; equality with a directly built SafeLearner(seed) is not demanded',
         'sampling: a uniform PMF over two actions must yield both actions somewhere among 16 un-batched and among 12 batched draws (seeds 1,2,3,7); no other distributional demand',
         'all rows of one batch are offered the same action set (fresh objects per row); continuous (empty) action sets are outside the alphabet',
     ]
@@ -787,11 +833,15 @@ class C15(Check):
         boxes = ['m'] if quick else BOXES
         def seeds(fmt): return ([0, 1] if quick else [0, 0.0, 1, 7]) if base_of(fmt) == 'PM' else [1]      # incl. the falsy but legal seeds
         yield {'agg': 'pmf-variation', 'seeds': [1, 2, 3, 7]}
+        for which in ('SequentialCB', 'SequentialIGL'):
+            for fmt in ('PM', 'hPM'):
+                for kw in (0, 2):
+                    yield {'evalseed': which, 'fmt': fmt, 'kw': kw, 'seeds': [0, 1, 7, 8]}
         # the same answers through the real SequentialCB (3 interactions; batches of 2 then 1)
         for mode in MODES:
             for acts in EVAL_ACTS:
                 for fmt in FMTS:
-                    for kw in ((0, 2) if quick else range(4)):
+                    for kw in tuple((0, 2) if quick else range(4)) + ((4, 6) if mode != 'not' else ()):
                         for seed in (seeds(fmt) if quick else seeds(fmt)[:3]):
                             yield dict(eval_cfg(fmt, kw, mode, acts, seed), via='eval')
         # ... and with every learn / eval mode that needs no optional package, on an environment that also carries logged fields
@@ -807,8 +857,9 @@ class C15(Check):
         for mode, n in layouts:
             for acts in ACT_NAMES:
                 for fmt in FMTS:
-                    for kw in range(4):
+                    for kw in range(4 if mode == 'not' or n == 1 else (7 if quick else 8)):
                         for ctx in CTX_KINDS:
+                            if kw >= 4 and ctx == 'none': continue          # rows with a None context share one script entry (one key order)
                             for box in boxes:
                                 if box != 'm' and ctx == 'list': continue
                                 for seed in seeds(fmt):
@@ -844,6 +895,7 @@ class C15(Check):
     # -------------------------------------------------------------- one case
     def run_case(self, case, acc):
         if 'agg' in case: return self.run_agg(case, acc)
+        if 'evalseed' in case: return self.run_evalseed(case, acc)
         if case.get('via') == 'eval': return self.run_eval(case, acc)
         cfg = cfg_of(case)
         single = 'ch' in case            # a witness: one execution, classified completely
@@ -879,6 +931,53 @@ class C15(Check):
             if len({a for a, _ in drawn}) < 2:
                 acc.violation('SafeLearner.predict|PMF answer: a uniform PMF yields the same action for every seed and position|%s, seeds 1,2,3,7' % name,
                               '%d draws from [0.5, 0.5] over [a, b] all gave %r' % (len(drawn), drawn[0][0]), case)
+
+    @staticmethod
+    def evalseed_finding(which, fmt, kwid, seeds, acc=None):
+        """-> (failure mode, what) or None; the played sequences per seed are handed to acc.outcome."""
+        exp_kw = mk_kw(kwid, 1) or {}
+        seqs = {}
+        for seed in seeds:
+            try:
+                r1 = seeded_actions(which, fmt, kwid, seed)
+                r2 = seeded_actions(which, fmt, kwid, seed)
+                r3 = seeded_actions(which, fmt, kwid, seed, exp_seed=5)
+                cb = seeded_actions('SequentialCB', fmt, kwid, seed) if which != 'SequentialCB' else r1
+            except Exception as ex:   # noqa
+                return 'raises %s@%s' % (type(ex).__name__, where_raised(ex)), '%s(seed=%r): %s' % (which, seed, str(ex)[:160])
+            if acc: acc.count('evaluator_executions', 4)
+            if len(r1[0]) != SEED_N or any(a not in ('a', 'b') for a in r1[0]) or [a for a, _ in r1[1]] != r1[0] or any(p != 0.5 for _, p in r1[1]):
+                return 'PMF answer: played / learned (action, probability) is not a draw from the uniform PMF', '%s(seed=%r): recorded %r, learned %r' % (which, seed, r1[0], r1[1])
+            if any(kw != exp_kw for kw in r1[2]):
+                return 'learner receives other kwargs than it returned', '%s(seed=%r): learn kwargs %r, predict gave %r' % (which, seed, r1[2][:2], exp_kw)
+            if r2[0] != r1[0] or r3[0] != r1[0]:
+                return ('PMF answer: the draws are not a function of the evaluator seed alone',
+                        '%s(seed=%r): %r; again: %r; with experiment_seed=5: %r' % (which, seed, ''.join(r1[0]), ''.join(r2[0]), ''.join(r3[0])))
+            if cb[0] != r1[0]:
+                return ('PMF answer: the draws differ from those of SequentialCB with the same seed',
+                        '%s(seed=%r): %r, SequentialCB(seed=%r): %r' % (which, seed, ''.join(r1[0]), seed, ''.join(cb[0])))
+            seqs[repr(seed)] = ''.join(r1[0])
+        if acc: acc.outcome((which, fmt, kwid, sorted(seqs.items())))
+        if len(set(seqs.values())) < 2:
+            return 'PMF answer: every evaluator seed gives the same draws', 'seeds %r all gave %r' % (seeds, list(seqs.values())[0])
+        return None
+
+    def run_evalseed(self, case, acc):
+        """Every built-in evaluator that hands a seed to SafeLearner and lets a PMF be drawn (SequentialCB, SequentialIGL):
+        the draws are a function of the evaluator's seed alone, the seed matters, and SequentialIGL(seed) plays what
+        SequentialCB(seed) plays."""
+        which, fmt, kwid = case['evalseed'], case['fmt'], case['kw']
+        f = self.evalseed_finding(which, fmt, kwid, case['seeds'], acc)
+        if f is None:
+            acc.mark_nontrivial(); return
+        wit = case
+        for fmt0, kw0 in (('PM', 0), ('PM', kwid)):          # the same failure with a simpler answer: one key
+            if (fmt0, kw0) == (fmt, kwid): break
+            f0 = self.evalseed_finding(which, fmt0, kw0, case['seeds'])
+            if f0 is not None and f0[0] == f[0]:
+                f, wit, fmt, kwid = f0, dict(case, fmt=fmt0, kw=kw0), fmt0, kw0
+                break
+        acc.violation('%s|%s|format %s, %s' % (which, f[0], FMT_TEXT[fmt], KW_TEXT[kwid]), f[1], wit)
 
     def run_eval(self, case, acc):
         cfg = {k: case[k] for k in ('fmt', 'kw', 'mode', 'calls', 'box', 'seed')}
